@@ -392,7 +392,11 @@ def ownerOf : Rep → List Nat
   cases r with
   | inline bs => rfl
   | borrowed a b c => rfl
-  | heap o pb off len => simp only; cases getI s o <;> rfl
+  | heap o pb off len =>
+    simp only
+    cases getI s o with
+    | none => rfl
+    | some x => simp only; split <;> rfl
 
 theorem frame_writeView {s : State} {r : Rep} (f : List UInt8 → List UInt8)
     (hlive : ∀ o pb off len, r = .heap o pb off len → ∃ x, getI s o = some x ∧ x.live = true) :
